@@ -175,13 +175,14 @@ func (g *c13Gen) chunk(p, rid int64) *c13Chunk {
 }
 
 // a message: the chunks and which of them are padded beyond signedIDSize
-// mode 0: ordinary sizes only; 1: sometimes around the caps; 2: always around the caps
+// mode 0: ordinary sizes only; 1: sometimes around the caps; 2: always around the caps;
+// 3: always many addresses
 func (g *c13Gen) message(p, rid int64, mode int) ([]*c13Chunk, []bool) {
 	r := g.r
 	var cs []*c13Chunk
 	var pad []bool
 	x := r.Intn(100)
-	if mode == 2 {
+	if mode >= 2 {
 		x = 99
 	}
 	big := mode > 0
@@ -217,7 +218,16 @@ func (g *c13Gen) message(p, rid int64, mode int) ([]*c13Chunk, []bool) {
 			cs = []*c13Chunk{g.chunk(p, rid)}
 			break
 		}
-		switch []int{0, 1, 2, 2, 2, 3, 3, 3}[r.Intn(8)] {
+		variant := []int{0, 1, 2, 2, 3, 3, 4, 4}[r.Intn(8)]
+		if mode == 3 {
+			variant = []int{2, 3, 4, 4}[r.Intn(4)]
+		}
+		switch variant {
+		case 4: // more listen addresses than the address book's per-peer cap (64)
+			n := 60 + r.Intn(70)
+			cs = []*c13Chunk{{listen: g.manyAddrs(n, 100+int64(r.Intn(200)))}}
+			g.keyField(cs[0], p)
+			g.out.Cover("msg.listen_addrs_around_book_cap")
 		case 0: // protocols around maxPeerProtocols, spread over chunks
 			n := maxPeerProtocols - 3 + r.Intn(80)
 			for i := 0; i < n; i += 300 {
